@@ -82,8 +82,10 @@ impl HttpListener {
                     });
                 }
                 Err(e) => {
+                    // a failed accept (connection aborted before it was accepted, descriptor or buffer
+                    // exhaustion) concerns one connection: the listener keeps listening
                     error!("{} accept error: {} \ncause: {:?}", self.name, e, e.cause);
-                    return;
+                    tokio::time::sleep(std::time::Duration::from_millis(100)).await;
                 }
             }
         }
